@@ -213,7 +213,7 @@ func (cx *Ctx) c18Provenance(r *Report, set hev, where string, oracle bool) {
 		}
 		if t.Op == "call" {
 			n := t.Name
-			allowed := strings.HasPrefix(n, "sdk.Context.") || strings.HasPrefix(n, "random/types.") || strings.HasPrefix(n, "random/keeper.Keeper.GetOracleRandRequest") || strings.HasPrefix(n, "big.") || strings.HasPrefix(n, "time.Time.Unix") ||
+			allowed := n == "sdk.Context.BlockHeader" || strings.HasPrefix(n, "random/types.") || strings.HasPrefix(n, "random/keeper.Keeper.GetOracleRandRequest") || strings.HasPrefix(n, "big.") || strings.HasPrefix(n, "time.Time.Unix") ||
 				strings.HasPrefix(n, "codec.") || strings.HasPrefix(n, "out:codec.") || strings.HasPrefix(n, "cosmos-db.Iterator.") || strings.HasPrefix(n, "random/keeper.Keeper.IterateRandomRequestQueueByHeight") || strings.HasPrefix(n, "storetypes.") || n == "addr" || n == "str" || strings.HasPrefix(n, "hex.") || strings.HasPrefix(n, "gjson.") || strings.HasPrefix(n, "proto.Header") || strings.HasPrefix(n, "types.Header") || n == "varargs" || strings.HasPrefix(n, "bytes.HexBytes")
 			if !allowed && bad == "" {
 				bad = n
@@ -223,7 +223,16 @@ func (cx *Ctx) c18Provenance(r *Report, set hev, where string, oracle bool) {
 			walk(a)
 		}
 	}
-	walk(v)
+	// judge the producers of the Value field only (Height legitimately uses the block height)
+	if st := findSub(v, func(t *Term) bool { return t.Op == "struct" && t.Name == "Random" }); st != nil {
+		for i := 0; i+1 < len(st.Args); i += 2 {
+			if st.Args[i].Name == "Value" {
+				walk(st.Args[i+1])
+			}
+		}
+	} else {
+		walk(v)
+	}
 	r.check(okShape && okIn && bad == "", "prng-provenance", where, set.ev.Pos(cx), "the stored value is FloatString(20) of GetRand() over {AppHash of the block header, block time, the request's consumer"+map[bool]string{true: ", the seed decoded from the response", false: ""}[oracle]+"} only", "stored random value does not have the expected provenance (shape "+fmt.Sprint(okShape)+", inputs "+fmt.Sprint(okIn)+", foreign producer "+bad+"): "+trunc(s, 300))
 }
 
